@@ -36,7 +36,10 @@ def direct(files, r):
 def main(ctx):
     search = mc.run(ctx, THEOREM_MODULES, project, direct,
                     "file tree / classdef structure / preamble differ from the proved-correct ones",
-                    "MEX preamble is inconsistent", cfg_kw=dict(matlab_safe=True, typedef_same_ns=True))
+                    "MEX preamble is inconsistent", cfg_kw=dict(matlab_safe=True, typedef_same_ns=True),
+                    # serializable classes followed by method-less ones; one instantiation under two names
+                    extra_streams=[(dict(p_serialize=0.5, max_members=2), 0.3), (dict(p_dup_typedef=0.7, extra_kinds=['cls']), 0.3),
+                                   (dict(matlab_ignore=True, p_template=0.6, unique_ns=True, extra_kinds=['ns', 'ns']), 0.4)])
     for e in ctx.known:
         w = e["witness"]
         st, out = impl_matlab([w["input"]], "mymod", w.get("ignore", []), False)
